@@ -12,21 +12,22 @@ var ruleC12 = ruleW2 + "C12: requests of several containers run concurrently (se
 	"A run is non-trivial if at least one ADD request completed AND (a scheduling decision with >=2 enabled tasks occurred OR a fault fired OR a pod with >=2 networks was added). " +
 	"distinct_nontrivial = distinct sha256 of (task kind, parked-on kind) at contested decisions plus the sequence of fired faults."
 
-var ruleC14 = ruleW2 + "C14: requests run one at a time (the quantifier is inputs x histories); prior NAT tables with foreign chains, stale KUBE-HP-* chains and earlier jump rules; foreign " +
+var ruleC14 = ruleW2 + "C14: requests run one at a time (the quantifier is inputs x histories), with one exception that belongs to the histories of a real node: the teardown of an old sandbox " +
+	"(kubelet's container GC / PLEG cleanup) may overlap the ADD of the same pod's replacement sandbox, and DELs of earlier sandboxes may be repeated late; prior NAT tables with foreign chains, stale KUBE-HP-* chains and earlier jump rules; foreign " +
 	"processes bind ports (net.inuse), iptables calls fail (transient 'Resource temporarily unavailable' and hard), state-file writes fail; graceful daemon restarts re-run the full " +
 	"synchronisation; at the end every pod is torn down and the table is compared with the one after the first synchronisation. A run is non-trivial if at least one pod with host ports " +
 	"was set up successfully. distinct_nontrivial as above."
 
 var ruleC17 = ruleW2 + "C17: docker and containerd modes; GC directories and IP directories populated by real ADDs (the fake plugin leaves flannel/host-local style files) and by generated " +
 	"leftovers of containers in every runtime state plus non-container files; sandboxes die with and without DEL; inspect calls fail (runtime.err) or the runtime is unreachable " +
-	"(runtime.down); operations do not overlap (the quantifier is inputs x fault sequences) but the two collectors of a round interleave. After faults stop two GC rounds run and the " +
+	"(runtime.down); port files are damaged by short/failed writes of the daemon itself, by daemon crashes and as generated leftovers (empty, truncated, junk); operations do not overlap (the quantifier is inputs x fault sequences) but the two collectors of a round interleave. After faults stop two GC rounds run and the " +
 	"liveness clause is checked. A run is non-trivial if a GC task removed something or an inspect fault fired. distinct_nontrivial as above."
 
 var assumeW2 = []string{
 	"real code: pkg/api/cniutil, pkg/galaxy (cni handler, requestFunc, resolveNetworks, port-mapping glue, setupIPtables, cleanIPtables), pkg/api/galaxy, pkg/api/k8s, pkg/network/portmapping, pkg/gc (collectors, shouldCleanup), pkg/api/docker (inspect wrappers over the real engine-api client), cni/ipam decoder; rewritten only at the seams (sync, time, wait, klog, map iteration, go statements; os/ioutil/libcni file access, cni invoke, net.Listen, netlink.LinkList)",
 	"stubbed: CNI plugin binaries (in-process recording plugin runtime with scripted outcomes), file system (in-memory; a process crash keeps every completed write, loses what was not yet written), sockets (port table with kernel-style ephemeral allocation), iptables (strict simulated kernel at the utiliptables.Interface seam), docker daemon (in-process round tripper behind the real engine-api client) and containerd (CRI client fake), kube-apiserver (simkube), kubelet (model)",
 	"strict kernel rules (each a documented behaviour of iptables/iptables-restore --noflush, nothing else is refused): a restore is applied to a private copy and committed at COMMIT, any failing line aborts it with nothing applied; a ':CHAIN' line creates a missing chain and flushes an existing user chain; -A/-I fail on a missing chain or jump target; -X fails on a non-empty or still referenced chain; -N on an existing chain exits 1; one Interface method = one atomic step (the real runner holds its mutex and the xtables lock)",
-	"C14: 'foreign' = every chain other than KUBE-HOSTPORTS, KUBE-HP-* and KUBE-MARK-MASQ (rewritten by galaxy on every setup by design); inside built-in chains galaxy may add its own jump rules to KUBE-HOSTPORTS; no daemon crash is injected (sockets cannot survive a process); obligations on held ports last until the pod's DEL succeeded",
+	"C14: 'foreign' = every chain other than KUBE-HOSTPORTS, KUBE-HP-* and KUBE-MARK-MASQ (rewritten by galaxy on every setup by design); inside built-in chains galaxy may add its own jump rules to KUBE-HOSTPORTS; no daemon crash is injected (sockets cannot survive a process); obligations on held ports last until the sandbox's DEL has been issued; once no sandbox of a pod is left and its last DEL succeeded, no rule and no socket of that pod may remain",
 	"C17: runtime states are monotone (a container never comes back to life); under containerd the liveness clause does not count galaxy's extra caution (a not-ready sandbox whose pod still reports a waiting/running container is kept) against it",
 	"a clean batch is evidence, not proof: configurations, histories, interleavings and faults are sampled from a seeded stream",
 }
